@@ -175,8 +175,18 @@ def impl_draw(win, w, H, no_sep, max_asks=400):
         pass
 
     s = Screen(win[1], H)
-    for x in win[2]:
-        s.window.add(rc.build(x))
+    for k, x in enumerate(win[2]):
+        obj = rc.build(x)
+        if (len(str(x)) + w + k) % 3 == 0:
+            # this item was shown before (an application keeps its containers and adds them to a fresh window on every
+            # refresh): what it contributes now must not depend on that
+            for w0 in (w, max(1, w // 2)):
+                try:
+                    with lib.time_limit(20):
+                        obj.render(w0)
+                except Exception:      # noqa  (a refusal of the earlier render is not this draw's business)
+                    pass
+        s.window.add(obj)
     s.no_separator = no_sep
     out = _Out()
     raised = []
